@@ -1,0 +1,206 @@
+//go:build verif
+
+package hsms
+
+import (
+	"sync/atomic"
+	"time"
+)
+
+// This file exposes a goroutine-free driver of the E37 supervisor for the
+// /verif model-based checks (build tag `verif` only). Every method calls the
+// real supervisor code; the driver only decides WHEN each critical section
+// runs, so that TLC-generated interleavings can be replayed deterministically.
+
+// Event kinds as small ints (mirrors the unexported fsmEvent constants).
+const (
+	VerifEvTCPUp          = int(evTCPUp)
+	VerifEvSelectAccepted = int(evSelectAccepted)
+	VerifEvSelectLost     = int(evSelectLost)
+	VerifEvDisconnect     = int(evDisconnect)
+	VerifEvClose          = int(evClose)
+	VerifEvT7Timeout      = int(evT7Timeout)
+)
+
+// VerifTransition is the pure E37 transition table.
+func VerifTransition(cur ConnState, ev int) (ConnState, bool) { return transition(cur, fsmEvent(ev)) }
+
+// VerifNextBackoffDelay is the pure reconnect backoff step.
+func VerifNextBackoffDelay(cur time.Duration, multiplier float64, ceil time.Duration) time.Duration {
+	return nextBackoffDelay(cur, multiplier, ceil)
+}
+
+// VerifReaction is one react() call observed by the driver.
+type VerifReaction struct{ Prev, Next ConnState }
+
+// VerifSupervisor wraps a real supervisor that has NO run()/notifier() goroutine.
+type VerifSupervisor struct {
+	s         *supervisor
+	handlers  atomic.Pointer[[]StateChangeHandler]
+	Reactions []VerifReaction
+
+	stepParked chan struct{} // step() reached the after-load seam
+	stepGo     chan struct{}
+	stepDone   chan struct{}
+	stepping   bool
+	parked     bool
+
+	commitParked chan struct{}
+	commitGo     chan struct{}
+	commitDone   chan bool
+	committing   bool
+}
+
+// NewVerifSupervisor builds a supervisor with the given channel capacities and no goroutines.
+func NewVerifSupervisor(eventsCap, notifyCap int) *VerifSupervisor {
+	v := &VerifSupervisor{}
+	v.s = newSupervisorWithEventsCap(func(prev, next ConnState) {
+		v.Reactions = append(v.Reactions, VerifReaction{prev, next})
+	}, &v.handlers, eventsCap)
+	v.s.notify = make(chan stateChange, notifyCap)
+	return v
+}
+
+func (v *VerifSupervisor) State() ConnState       { return v.s.State() }
+func (v *VerifSupervisor) LastReacted() ConnState { return v.s.lastReacted }
+func (v *VerifSupervisor) Closed() bool           { return v.s.closed }
+func (v *VerifSupervisor) QueueLen() int          { return len(v.s.events) }
+func (v *VerifSupervisor) NotifyLen() int         { return len(v.s.notify) }
+func (v *VerifSupervisor) Dropped() uint64        { return v.s.droppedNotify.Load() }
+
+// The three synchronous commits, whole (CAS + enqueue of the echo event).
+func (v *VerifSupervisor) CommitConnected() bool  { return v.s.CommitConnected() }
+func (v *VerifSupervisor) CommitSelected() bool   { return v.s.CommitSelected() }
+func (v *VerifSupervisor) CommitSelectLost() bool { return v.s.CommitSelectLost() }
+
+// BeginCommit runs the real commit (kind = VerifEvTCPUp / VerifEvSelectAccepted /
+// VerifEvSelectLost) on a helper goroutine and parks it between its CAS and its
+// enqueue (gate "sup.commit.cas"). It returns whether the CAS succeeded; when it
+// did not, the commit has already returned and there is nothing to finish.
+func (v *VerifSupervisor) BeginCommit(kind int) (casOK bool) {
+	if v.committing {
+		panic("verif: commit already in flight")
+	}
+	v.commitParked = make(chan struct{})
+	v.commitGo = make(chan struct{})
+	v.commitDone = make(chan bool, 1)
+	parked, release := v.commitParked, v.commitGo
+	VerifSetGate(func(name string) {
+		if name == "sup.commit.cas" {
+			close(parked)
+			<-release
+		}
+	})
+	go func() {
+		var ok bool
+		switch fsmEvent(kind) { //nolint:exhaustive
+		case evTCPUp:
+			ok = v.s.CommitConnected()
+		case evSelectAccepted:
+			ok = v.s.CommitSelected()
+		case evSelectLost:
+			ok = v.s.CommitSelectLost()
+		}
+		v.commitDone <- ok
+	}()
+	select {
+	case <-parked:
+		v.committing = true
+		VerifSetGate(nil)
+		return true
+	case ok := <-v.commitDone:
+		VerifSetGate(nil)
+		return ok
+	}
+}
+
+// FinishCommit releases the parked commit so that it enqueues its echo event.
+func (v *VerifSupervisor) FinishCommit() {
+	if !v.committing {
+		panic("verif: no commit in flight")
+	}
+	close(v.commitGo)
+	<-v.commitDone
+	v.committing = false
+}
+
+func (v *VerifSupervisor) CommitInFlight() bool { return v.committing }
+
+// Asynchronous injections, exactly as the connection performs them.
+func (v *VerifSupervisor) InjectDisconnect() { v.s.inject(evDisconnect) }
+func (v *VerifSupervisor) InjectT7()         { v.s.inject(evT7Timeout) }
+func (v *VerifSupervisor) RequestClose()     { v.s.requestClose(nil) }
+
+// InjectRaw enqueues an arbitrary event kind (used only to probe the pure table).
+func (v *VerifSupervisor) InjectRaw(kind int) { v.s.inject(fsmEvent(kind)) }
+
+// BeginStep dequeues the head event (ok=false if the queue is empty) and runs the
+// real step() on a helper goroutine, parked at the after-state-load seam. If
+// step() returns without reaching the seam (closed latch), parkedAtSeam is false
+// and the step is already complete.
+func (v *VerifSupervisor) BeginStep() (ev int, ok, parkedAtSeam bool) {
+	if v.stepping {
+		panic("verif: step already in flight")
+	}
+	var e fsmEvent
+	select {
+	case e = <-v.s.events:
+	default:
+		return 0, false, false
+	}
+	v.stepParked = make(chan struct{})
+	v.stepGo = make(chan struct{})
+	v.stepDone = make(chan struct{})
+	parked, release := v.stepParked, v.stepGo
+	v.s.testHookAfterStateLoad = func(fsmEvent) {
+		close(parked)
+		<-release
+	}
+	done := v.stepDone
+	go func() {
+		v.s.step(e)
+		close(done)
+	}()
+	select {
+	case <-parked:
+		v.stepping = true
+		return int(e), true, true
+	case <-done:
+		v.s.testHookAfterStateLoad = nil
+		return int(e), true, false
+	}
+}
+
+// FinishStep lets the parked step() apply its transition.
+func (v *VerifSupervisor) FinishStep() {
+	if !v.stepping {
+		panic("verif: no step in flight")
+	}
+	close(v.stepGo)
+	<-v.stepDone
+	v.s.testHookAfterStateLoad = nil
+	v.stepping = false
+}
+
+func (v *VerifSupervisor) StepInFlight() bool { return v.stepping }
+
+// Step dequeues and fully processes one event.
+func (v *VerifSupervisor) Step() (ev int, ok bool) {
+	select {
+	case e := <-v.s.events:
+		v.s.step(e)
+		return int(e), true
+	default:
+		return 0, false
+	}
+}
+
+// TakeNotify removes one notification from the buffer, as the notifier goroutine would.
+func (v *VerifSupervisor) TakeNotify() (prev, next ConnState, ok bool) {
+	select {
+	case sc := <-v.s.notify:
+		return sc.prev, sc.next, true
+	default:
+		return 0, 0, false
+	}
+}
